@@ -146,7 +146,9 @@ pub fn run_queries(sink: &mut Sink, t: &GTree, only: Option<&[Vec<usize>]>, ops:
                 }
             }
         }
-        oracle::check_node(sink, &xot, &vocab, t, path, *node);
+        if guarded(|| oracle::check_node(&mut *sink, &xot, &vocab, t, path, *node)).is_none() {
+            oracle::fail(sink, "C09", "C09:scope-query-panics", "a scope / name query of the crate panicked on a tree built through the public API", t, path, "in_scope");
+        }
     }
 }
 
